@@ -82,4 +82,16 @@ CHECKS = {
                 "(first, second) pairs deterministically. Non-trivial: history contains a replay, even number, decrease, jump>=4 or 255.",
         "assumptions": COMMON_ASSUME + ["handlers never pair a RESTART reply with a continuation (no defined meaning in RFC 8907)"],
     },
+    "C19": {
+        "quick": 3000, "thorough": 150000,
+        "rule": "rapid draws server and client secrets (equal or distinct), packet type, minor, odd seq, flags (0/4/1/5), session and a "
+                "body: a model-encoded well-formed request under the right key, the same under a wrong key, bytes constructed so that "
+                "the server sees over-declared lengths under every layout of the type, arbitrary bytes, or a well-formed request with "
+                "noise/truncation; the bytes the server will see are classified by the model's own length-consistency rule: "
+                "MISMATCH => 0 handler calls, exactly 1 packet of the same type decoding under the server's secret to the type's reply "
+                "layout with ERROR status, connection closed; WELLFORMED or unencrypted flag => handler called once, nothing written, "
+                "connection open; GREY => at most one packet. Plus the repository's canonical requests under 200 wrong keys each. "
+                "Non-trivial: MISMATCH with >=9 bytes, WELLFORMED, or clear flag with differing secrets.",
+        "assumptions": COMMON_ASSUME + ["bodies whose argument length octets are not all present are GREY (DESIGN.md C19)"],
+    },
 }
